@@ -1005,24 +1005,24 @@ def run(ck, repo: Repo, tier: str):
     ck.extra["update_routines"] = sorted(seeds)
     ck.extra["call_graph"] = dict(res.cg_stats)
     for q in COUNTER_ROUTINES:
-        r1_count(ck, repo, loops[q], "global_step")
+        ck.guard(r1_count, ck, repo, loops[q], "global_step")
     ck.floor("counter-routines", len(COUNTER_ROUTINES), 9)
     for q in STEP_BUDGET:
-        r2_budget(ck, repo, loops[q])
+        ck.guard(r2_budget, ck, repo, loops[q])
     for q, L in loops.items():
-        r2_episodes(ck, repo, L)
+        ck.guard(r2_episodes, ck, repo, L)
         if q not in VECTOR_LOOPS:
-            r3_done_reset(ck, repo, L)
+            ck.guard(r3_done_reset, ck, repo, L)
         if q in STEP_BUDGET:
-            r4_warmup(ck, repo, L, res, learn_set)
+            ck.guard(r4_warmup, ck, repo, L, res, learn_set)
     ck.note("batch collectors (reinforce.sample_trajectories, a2c/ppo collect_trajectories) check their budget once per batch by documented design: no R2 verdict")
-    r5_selectors(ck, repo)
-    r5_ducb(ck, repo, nf)
-    r5_ducb_mean(ck, repo, nf)
+    ck.guard(r5_selectors, ck, repo)
+    ck.guard(r5_ducb, ck, repo, nf)
+    ck.guard(r5_ducb_mean, ck, repo, nf)
     for q, b in MT_LOOPS.items():
-        r5_budget_symbolic(ck, repo, nf, q, b)
+        ck.guard(r5_budget_symbolic, ck, repo, nf, q, b)
         if not q.endswith("train_uts"):
-            r5_budget_exact(ck, repo, nf, q, b)
+            ck.guard(r5_budget_exact, ck, repo, nf, q, b)
 
 
 # ---- self-validation variants (thorough tier) ------------------------------------------------------------
